@@ -62,7 +62,12 @@ def classify(monitor, item, spec, res):
         # where is the state at the end of the run?  (peer-own-only is the signature of F5)
         vmst = parts[-1]
         scope = cfg.get("pool_scope", "").split()
-        if res.get("initial_peer_only", {}).get(vmst):
+        removers = [w for w in res.get("unset_by", {}).get(vmst, []) if w != parts[0]]
+        if (spec.get("lazy") or spec.get("lazyparsed")) and removers:
+            # lazily expanded graph: the producing worker removed the (removable) state before the worker of the dependant
+            # had picked the producer - involvement in a node is registered when it is picked, not when a dependant is expanded
+            feats.append("lazy-expansion-state-removed-before-the-dependant-worker-picked-its-producer")
+        elif res.get("initial_peer_only", {}).get(vmst):
             feats.append("state-initially-only-in-a-peer-own-pool")
         elif spec["workers"][0]["spawner"] != "lxc" and "swarm" not in scope:
             feats.append("non-lxc-workers-share-although-swarm-scope-disabled")
